@@ -26,20 +26,33 @@ for m in metas:
         verdict = 'not claimed: outside the quantifier'
     elif m.get('not_claimed'):
         verdict = 'not claimed: ' + m['not_claimed']
+    elif own.get('verdict') == 'caught':
+        verdict = '`%s`' % key
     else:
-        verdict = ('`%s`' % key) if own.get('verdict') == 'caught' else '**%s**' % own.get('verdict', '?')
+        others = [(p, c) for p, c in sorted(m.get('checks', {}).items()) if p != m['property'] and c.get('verdict') == 'caught']
+        if others:
+            verdict = 'by ' + ', '.join('%s `%s`' % (p, (c.get('keys') or [''])[0].split(' count=')[0].replace('key=', ''))
+                                        for p, c in others)
+            if m.get('own_property_note'):
+                verdict += ' (%s)' % m['own_property_note']
+        else:
+            verdict = '**%s**' % own.get('verdict', '?')
     r = rnd(m)
     st = stats.setdefault(r, {'n': 0, 'caught': 0, 'other': 0})
     st['n'] += 1
     if own.get('verdict') == 'caught' and not (m.get('superseded') or m.get('out_of_quantifier') or m.get('not_claimed')):
         st['caught'] += 1
+    elif any(c.get('verdict') == 'caught' for c in m.get('checks', {}).values()) and not (
+            m.get('superseded') or m.get('out_of_quantifier') or m.get('not_claimed')):
+        st['byother'] = st.get('byother', 0) + 1
     elif m.get('superseded') or m.get('out_of_quantifier') or m.get('not_claimed'):
         st['other'] += 1
     rows.append('| %s | %d | %s | %s |' % (m['id'], r, m['needs_to_manifest'], verdict))
 
 table = '\n'.join(rows)
-summary = '; '.join('round %d: %d changes, %d caught by the quick tier of their own property now, %d not claimed/superseded'
-                    % (r, st['n'], st['caught'], st['other']) for r, st in sorted(stats.items()))
+summary = '; '.join('round %d: %d changes, %d caught by the quick tier of their own property now, %d by another property\'s check only, '
+                    '%d not claimed/superseded' % (r, st['n'], st['caught'], st.get('byother', 0), st['other'])
+                    for r, st in sorted(stats.items()))
 begin = s.index('<!-- SEEDED-TABLE-BEGIN -->')
 end = s.index('<!-- SEEDED-TABLE-END -->')
 s = s[:begin] + '<!-- SEEDED-TABLE-BEGIN -->\n' + 'Current state (`tools/seeded.py rerun`, quick tier, default seed): ' + summary + \
